@@ -147,11 +147,29 @@ class RowScal:
 def mask_lib(it):
     lib = it.lib.overrides
     lib["jax.numpy.arange"] = lambda n: IVec(lift(n), lambda i: i)
-    lib["jax.numpy.ones"] = lambda n, dtype=None: IVec(lift(n), lambda i: z3.IntVal(1))
     lib["jax.numpy.asarray"] = lambda a, *r, **k: a
     lib["jax.numpy.hstack"] = lambda parts: IVec(parts[0].n + parts[1].n, lambda i: z3.If(i < parts[0].n, parts[0].f(i), parts[1].f(i - parts[0].n)))
-    lib["jax.numpy.repeat"] = lambda v, k: IVec(v.n * lift(k), lambda o: v.f(o / lift(k)))
     lib["jax.numpy.zeros"] = lambda shape, dtype=None: MV(lift(shape[0]), lift(shape[1]), lambda r, c: z3.BoolVal(False), "bool")
+
+    def ones(shape, dtype=None):
+        if isinstance(shape, tuple) and len(shape) == 2:  # boolean / integer matrix of ones
+            return MV(lift(shape[0]), lift(shape[1]), lambda r, c: z3.BoolVal(True), "bool")
+        return IVec(lift(shape), lambda i: z3.IntVal(1))
+
+    lib["jax.numpy.ones"] = ones
+    lib["jax.numpy.tril"] = lambda m, k=0: MV(m.rows, m.cols, lambda r, c: z3.And(m.f(r, c), c <= r + lift(k)), "bool") if m.kind == "bool" else MV(m.rows, m.cols, lambda r, c: z3.If(c <= r + lift(k), m.f(r, c), z3.RealVal(0)))
+
+    def repeat(v, k, axis=None):
+        kk = lift(k)
+        if isinstance(v, MV):
+            if axis in (0, -2):
+                return MV(v.rows * kk, v.cols, lambda r, c: v.f(r / kk, c), v.kind)
+            if axis in (1, -1):
+                return MV(v.rows, v.cols * kk, lambda r, c: v.f(r, c / kk), v.kind)
+            raise Untranslatable("repeat of a matrix without an axis")
+        return IVec(v.n * kk, lambda o: v.f(o / kk))
+
+    lib["jax.numpy.repeat"] = repeat
 
     def where(cnd, a, b, **kw):
         if isinstance(cnd, MV):
